@@ -53,16 +53,29 @@ pub fn run(cx: &mut Ctx) {
     let n_pairs = 160 * crate::scale();
     let mut pairs: Vec<(String, Circuit, Circuit)> = vec![];
     for k in 0..n_pairs {
-        let n = 1 + r.below(3) as usize;
+        let n = if k % 6 == 5 { 2 + r.below(3) as usize } else { 1 + r.below(3) as usize };
         let len = 2 + r.below(8); let c = random_circuit(&mut r, n, len);
-        let d = match k % 5 {
+        let d = match k % 6 {
             0 => variant(&mut r, &c, false),                                      // equal
             1 => variant(&mut r, &c, true),                                       // equal up to a global phase only
             2 => { let mut d = variant(&mut r, &c, false); d.add_gate(["t", "s", "h", "x"][r.below(4) as usize], vec![r.below(n as u64) as usize]); d }   // one more gate
             3 => { let len = 2 + r.below(8); random_circuit(&mut r, n, len) }                      // unrelated, same arity
-            _ => random_circuit(&mut r, 1 + (n % 3), 3),                          // (mostly) different arity
+            4 => random_circuit(&mut r, 1 + (n % 3), 3),                          // (mostly) different arity
+            _ => { let m = 12 + r.below(14); let x = random_circuit(&mut r, n, m); let mut d = variant(&mut r, &c, false); d += &x; d += &x.to_adjoint(); d }   // equal, but hard to cancel: a long random section followed by its adjoint
         };
-        pairs.push((format!("kind {} | {:?} | {:?}", k % 5, c.gates.iter().map(|g| format!("{:?}{:?}", g.t, g.qs)).collect::<Vec<_>>(), d.gates.iter().map(|g| format!("{:?}{:?}", g.t, g.qs)).collect::<Vec<_>>()), c, d));
+        pairs.push((format!("kind {} | {:?} | {:?}", k % 6, c.gates.iter().map(|g| format!("{:?}{:?}", g.t, g.qs)).collect::<Vec<_>>(), d.gates.iter().map(|g| format!("{:?}{:?}", g.t, g.qs)).collect::<Vec<_>>()), c, d));
+    }
+    // equal pairs that rewriting does NOT cancel: the 4-qubit "spider nest" (T on odd, T-dagger on even subsets as parity phases over all 15
+    // non-empty subsets = the identity), alone and after a random circuit — here the honest answer of the rewriting check is "unknown"
+    {
+        use quizx::gate::{GType, Gate};
+        use quizx::phase::Phase;
+        let nest = |n: usize| { let mut c = Circuit::new(n); for m in 1u32..(1 << n) { let qs: Vec<usize> = (0..n).filter(|i| m >> i & 1 == 1).collect(); let sign = if qs.len() % 2 == 1 { 1 } else { -1 }; c.push(Gate::new_with_phase(GType::ParityPhase, qs, Phase::new(num::Rational64::new(sign, 4)))); } c };
+        for k in 0..4 {
+            let c = if k == 0 { Circuit::new(4) } else { random_circuit(&mut r, 4, 3 + k) };
+            let mut d = c.clone(); d += &nest(4);
+            pairs.push((format!("kind nest | {} gates | the same followed by the 4-qubit spider nest", c.gates.len()), c, d));
+        }
     }
     cx.check("definite_answers_are_right", |cb| {
         for (name, c, d) in &pairs {
